@@ -156,6 +156,11 @@ PkNames(d, r) ==
 
 ScalarNamed(d, i, n) == {k \in DOMAIN d.ents[i].attrs : d.ents[i].attrs[k].name = n}
 EndNamed(d, i, n) == {ks \in Sides(d) : End(d, ks).ent = i /\ End(d, ks).name = n}
+(* the entity that declares attribute n, seen from entity i: i itself or the nearest base (a composite key or
+   index of a subclass may name attributes of its bases: composite_key(Base.x, y)) *)
+RECURSIVE Owner(_, _, _)
+Owner(d, i, n) == IF ScalarNamed(d, i, n) # {} \/ EndNamed(d, i, n) # {} \/ d.ents[i].base = 0 THEN i
+                  ELSE Owner(d, d.ents[i].base, n)
 
 (* primary key columns of root r (EntityMeta._get_pk_columns_) and the columns of a foreign key end;
    mutually recursive because a primary key may contain a relationship attribute *)
@@ -170,7 +175,8 @@ FkCols(c, d, ks) ==
        ELSE IF Len(tp) = 1 THEN <<Normalize(c, me.name)>>
        ELSE [j \in 1 .. Len(tp) |-> Normalize(c, me.name \o US \o tp[j])]
 
-ColsOfName(c, d, i, n) ==       \* columns of the attribute called n of entity i (<<>> if it has none)
+ColsOfName(c, d, e, n) ==       \* columns of the attribute called n of entity e or of one of its bases (<<>> if it has none)
+    LET i == Owner(d, e, n) IN
     IF ScalarNamed(d, i, n) # {}
     THEN <<ScalarCol(c, d.ents[i].attrs[CHOOSE k \in ScalarNamed(d, i, n) : TRUE])>>
     ELSE IF EndNamed(d, i, n) # {}
@@ -188,6 +194,9 @@ InSeq(x, s) == \E j \in DOMAIN s : s[j] = x
 InKeyOrIndex(e, n) == \/ \E j \in DOMAIN e.ckeys : InSeq(n, e.ckeys[j])
                       \/ \E j \in DOMAIN e.cidx : InSeq(n, e.cidx[j])
 InPk(d, i, n) == ~IsSub(d, i) /\ InSeq(n, PkNames(d, i))
+(* named by a composite key or index of the entity or of any entity of its hierarchy (Index._init_ makes such an
+   optional attribute nullable when the class that names it is defined) *)
+InKeyOrIndexH(d, i, n) == \E j \in Members(d, RootIx(d, i)) : InKeyOrIndex(d.ents[j], n)
 
 ---------------------------------------------------------------------------
 (* nullability of the columns of an attribute *)
@@ -195,7 +204,7 @@ ScalarNullable(c, d, i, a) ==
     IF IsSub(d, i) THEN TRUE                                      \* single-table inheritance
     ELSE IF a.kind # "Optional" THEN a.nullable = "true"
     ELSE IF a.type = "int" THEN TRUE
-    ELSE \/ a.nullable = "true" \/ a.unique \/ InKeyOrIndex(d.ents[i], a.name)
+    ELSE \/ a.nullable = "true" \/ a.unique \/ InKeyOrIndexH(d, i, a.name)
          \/ c.dialect = "Oracle"                                  \* '' is NULL there
 
 EndNullable(d, ks) ==
@@ -281,7 +290,7 @@ M2MSymRevCols(c, d, k) ==
 (* rejection rules: declarations for which no schema exists *)
 BadScalar(c, d, i, a) ==
     (IF a.kind = "Optional" /\ a.type = "int" /\ a.nullable = "false" THEN {"optional-non-string-not-nullable"} ELSE {})
-    \cup (IF a.kind = "Optional" /\ a.nullable = "false" /\ (a.unique \/ InKeyOrIndex(d.ents[i], a.name))
+    \cup (IF a.kind = "Optional" /\ a.nullable = "false" /\ (a.unique \/ InKeyOrIndexH(d, i, a.name))
           THEN {"optional-in-key-not-nullable"} ELSE {})
     \cup (IF a.kind = "Optional" /\ InPk(d, i, a.name) THEN {"optional-in-primary-key"} ELSE {})
     \cup (IF IsSub(d, i) /\ a.nullable = "false" THEN {"subclass-attribute-not-nullable"} ELSE {})
